@@ -76,6 +76,11 @@ impl QueryBuilder for SqliteQueryBuilder {
         sql.push_param(value.clone(), self as _);
     }
 
+    fn returning_precedes_order_by(&self) -> bool {
+        // SQLite's grammar: UPDATE/DELETE ... [WHERE] [RETURNING] [ORDER BY] [LIMIT]
+        true
+    }
+
     fn greatest_function(&self) -> &str {
         "MAX"
     }
